@@ -363,7 +363,7 @@ def _bytes_cases(fb):
             if not (kind == "OpticalImage" and conv):
                 bad.append(f"decoded shape {shape}: returns {kind}(img={img!r}), not OpticalImage of the BGR->RGB converted array")
         else:
-            sq = isinstance(img, Sym) and (img.fn in ("decoded[Ellipsis, 0]", "decoded[:, :, 0]", "decoded[:, :, -1]", "decoded[Ellipsis, -1]")
+            sq = isinstance(img, Sym) and (img.fn in ("decoded[..., 0]", "decoded[:, :, 0]", "decoded[:, :, -1]", "decoded[..., -1]")
                                            or (img.fn == "np.squeeze" and img.args and img.args[0] is dec))
             if not (kind == "ScalarImage" and sq):
                 bad.append(f"decoded shape {shape}: returns {kind}(img={img!r}), not ScalarImage of the array without its channel axis")
